@@ -77,7 +77,7 @@ def main(tier):
             "non-trivial = DFA >= 3 states and >= 2 rules matched",
             ["only histories the manual permits are generated (no use of a deleted buffer, no buffer twice in the stack, pop only with "
              "two or more buffers stacked)",
-             "buffer operations from inside actions are exercised through yywrap / <<EOF>> in C10; here they happen between yylex calls",
+             "buffer operations happen between yylex calls and, for yypop_buffer_state, inside yywrap() (include-style scanners); pushes from inside actions are not generated",
              "the C++ class has a different buffer API (streams) and is not driven here"],
             worker=worker, post=scan_buffer_probe)
     finally:
